@@ -29,6 +29,8 @@ pub struct PipeState {
     pub stall: Option<std::io::ErrorKind>,
     /// cap for every write once the write schedule is exhausted (0: unbounded)
     pub wcap: usize,
+    /// when Some(k): the k-th write call from now fails once (TimedOut), nothing of it is accepted
+    pub fail_in: Option<usize>,
 }
 
 pub type Responder = Box<dyn FnMut(&[u8]) -> Vec<u8>>;
@@ -90,6 +92,7 @@ impl Write for Pipe {
     fn write(&mut self, buf: &[u8]) -> io::Result<usize> {
         let mut s = self.0.borrow_mut();
         s.writes += 1;
+        if let Some(k) = s.fail_in { if k <= 1 { s.fail_in = None; return Err(io::Error::new(io::ErrorKind::TimedOut, "injected")); } else { s.fail_in = Some(k - 1); } }
         let act = if s.widx < s.wsched.len() { s.wsched[s.widx] } else if s.wcap > 0 { Some(s.wcap) } else { Some(usize::MAX) };
         s.widx += 1;
         match act {
